@@ -153,6 +153,65 @@ fn real_layer(ctx: &mut Ctx, level: usize) {
         let v = rl.honest((rep + 1) % nrel, rep);
         let trio = vec![rl.shifted(&base, F::from(2)), v.clone(), rl.shifted(&base, -F::from(2))];
         rl.batch(ctx, "batch:complementary-pair", &trio);
+        // pairwise distinctness of the combination coefficients: members i and j carry the
+        // opposite alterations π+G / π−G of one proof (defects δ and −δ), everything else valid —
+        // accepted iff positions i and j get the same coefficient
+        for n in [3usize, 4, 5] {
+            if level == 0 && rep > 0 && n == 5 {
+                continue;
+            }
+            let fill: Vec<Mem> = (0..n).map(|k| if k % 2 == 0 { rl.honest(base.vk_of, k / 2 + 1) } else { rl.honest((k + rep) % nrel, k) }).collect();
+            for i in 0..n {
+                for j in i + 1..n {
+                    let mut ms = fill.clone();
+                    ms[i] = rl.shifted(&base, F::ONE);
+                    ms[j] = rl.shifted(&base, -F::ONE);
+                    rl.batch(ctx, "batch:opposite-alterations-pair", &ms);
+                    // the same with two DIFFERENT proofs (possibly different keys)
+                    if (i + j + rep) % 2 == 0 || level > 0 {
+                        let (p1, p2) = (fill[i].clone(), fill[j].clone());
+                        if let Some((a, b)) = rl.cross_pair(ctx, &p1, &p2) {
+                            let mut ms = fill.clone();
+                            ms[i] = a;
+                            ms[j] = b;
+                            rl.batch(ctx, "batch:opposite-alterations-two-proofs", &ms);
+                        }
+                    }
+                }
+            }
+        }
+        // the two-proof alteration really cancels: at the forced challenge r = 1 the pair passes
+        {
+            let (p1, p2) = (rl.honest(rep % nrel, rep), rl.honest((rep + 1) % nrel, rep + 1));
+            if let Some((a, b)) = rl.cross_pair(ctx, &p1, &p2) {
+                rl.batch_forced(ctx, "batch:forced-r:two-proof-pair", &[a.clone(), b.clone()], F::ONE);
+                rl.batch_forced(ctx, "batch:forced-r:two-proof-pair", &[a, b], F::from(5));
+            }
+        }
+        // small integer dependencies between the coefficients: every member is the same proof
+        // with π + aₖ·G, (a₀,…,aₙ₋₁) ranging over small vectors — accepted iff Σ cₖ·aₖ = 0
+        {
+            let (n, lo, hi): (usize, i64, i64) = if level == 2 { (3, -2, 2) } else { (3, -1, 1) };
+            let width = (hi - lo + 1) as usize;
+            for code in 0..width.pow(n as u32) {
+                let a: Vec<i64> = (0..n).map(|k| lo + ((code / width.pow(k as u32)) % width) as i64).collect();
+                if a.iter().all(|x| *x == 0) || (level == 0 && rep > 0) {
+                    continue;
+                }
+                let ms: Vec<Mem> = a.iter().map(|x| rl.shifted(&base, if *x >= 0 { F::from(*x as u64) } else { -F::from((-*x) as u64) })).collect();
+                rl.batch(ctx, "batch:small-dependency-sweep", &ms);
+            }
+            if level == 2 {
+                for code in 0..81usize {
+                    let a: Vec<i64> = (0..4).map(|k| -1 + ((code / 3usize.pow(k as u32)) % 3) as i64).collect();
+                    if a.iter().all(|x| *x == 0) {
+                        continue;
+                    }
+                    let ms: Vec<Mem> = a.iter().map(|x| rl.shifted(&base, if *x >= 0 { F::from(*x as u64) } else { -F::from((-*x) as u64) })).collect();
+                    rl.batch(ctx, "batch:small-dependency-sweep", &ms);
+                }
+            }
+        }
         // adaptive attacks on the dependence of r on each member
         for n in [2usize, 3, 4, 6] {
             if level == 0 && n == 6 && rep > 0 {
